@@ -2,6 +2,7 @@ package exec
 
 import (
 	"fmt"
+	"strings"
 	"os"
 
 	"verif/govc/term"
@@ -171,7 +172,37 @@ func matchInstances(hyps []*T, extra ...*T) []*T {
 	if os.Getenv("GOVC_NO_MATCH") != "" {
 		return nil
 	}
-	ground := map[*T][]*T{} // array term -> index terms
+	// array term -> index terms. Inner arrays of the same object in different versions of the heap
+	// (select(H0!c, ref), select(L.c!3, ref), select(store(...), ref)) share one key: facts stated
+	// on the entry heap must be instantiated for reads from a later heap (the frame instances make
+	// the versions equal).
+	ground := map[interface{}][]*T{}
+	heapRoot := func(t *T) string {
+		for t.Op == term.OStore || t.Op == term.OArrMap || t.Op == term.OIte {
+			if t.Op == term.OIte {
+				t = t.Args[1]
+			} else {
+				t = t.Args[0]
+			}
+		}
+		if t.Op != term.OVar {
+			return ""
+		}
+		n := t.Name
+		n = strings.TrimPrefix(strings.TrimPrefix(n, "H0!"), "L.")
+		if i := strings.LastIndexByte(n, '!'); i >= 0 {
+			n = n[:i]
+		}
+		return strings.NewReplacer(":", "_").Replace(n)
+	}
+	arrKey := func(a *T) interface{} {
+		if a.Op == term.OSelect && a.Args[0].Sort.K == term.KArr && a.Args[0].Sort.Elem != nil && a.Args[0].Sort.Elem.K == term.KArr {
+			if r := heapRoot(a.Args[0]); r != "" {
+				return [2]interface{}{r, a.Args[1]}
+			}
+		}
+		return a
+	}
 	seenSel := map[*T]bool{}
 	seen := map[*T]bool{}
 	var walk func(t *T)
@@ -185,7 +216,13 @@ func matchInstances(hyps []*T, extra ...*T) []*T {
 		}
 		if t.Op == term.OSelect && !t.HasBound() && !seenSel[t] {
 			seenSel[t] = true
-			ground[t.Args[0]] = append(ground[t.Args[0]], t.Args[1])
+			k := arrKey(t.Args[0])
+			ground[k] = append(ground[k], t.Args[1])
+			// a read through updates also concerns the arrays underneath (frame axioms speak about those)
+			for a := t.Args[0]; a.Op == term.OStore || a.Op == term.OArrMap; {
+				a = a.Args[0]
+				ground[arrKey(a)] = append(ground[arrKey(a)], t.Args[1])
+			}
 		}
 		for _, a := range t.Args {
 			walk(a)
@@ -244,12 +281,12 @@ func matchInstances(hyps []*T, extra ...*T) []*T {
 				if t.Op == term.OSelect && !t.Args[0].HasBound() {
 					if rest := term.Sub(t.Args[1], b); !rest.HasBound() {
 						// index = b + rest
-						for _, j := range ground[t.Args[0]] {
+						for _, j := range ground[arrKey(t.Args[0])] {
 							addCand(term.Sub(j, rest))
 						}
 					} else if rest := term.Add(t.Args[1], b); !rest.HasBound() {
 						// index = rest - b
-						for _, j := range ground[t.Args[0]] {
+						for _, j := range ground[arrKey(t.Args[0])] {
 							addCand(term.Sub(rest, j))
 						}
 					}
@@ -259,9 +296,12 @@ func matchInstances(hyps []*T, extra ...*T) []*T {
 				}
 			}
 			find(h.Args[0])
+			if os.Getenv("GOVC_DEBUG_INST") != "" {
+				fmt.Fprintf(os.Stderr, "  hyp %.120s : %d candidates\n", h.String(), len(candList))
+			}
 			n := 0
 			for _, c := range candList {
-				if n >= 16 {
+				if n >= 80 {
 					break
 				}
 				inst := term.Subst(h.Args[0], map[*T]*T{b: c})
@@ -278,7 +318,7 @@ func matchInstances(hyps []*T, extra ...*T) []*T {
 	}
 	for _, h := range hyps {
 		visit(h, nil)
-		if len(out) > 96 {
+		if len(out) > 2000 {
 			break
 		}
 	}
@@ -287,6 +327,85 @@ func matchInstances(hyps []*T, extra ...*T) []*T {
 		for _, o := range out {
 			fmt.Fprintf(os.Stderr, "   inst %.200s\n", o.String())
 		}
+	}
+	return out
+}
+
+// axiomInstances instantiates the background axioms about the uninterpreted bit operators at the
+// ground applications of the query (each axiom has a trigger f(x, y, ..) over all its bound
+// variables). The quantifier-free variant of a query needs them spelled out.
+func (p *Program) axiomInstances(x *Exec, ts []*T) []*T {
+	type trig struct {
+		ax  *T
+		pat *T
+	}
+	byName := map[string][]trig{}
+	for _, ax := range p.axiomTerms(x) {
+		if ax.Op != term.OForall {
+			continue
+		}
+		for _, pt := range ax.Pat {
+			if len(pt) != 1 || pt[0].Op != term.OApp {
+				continue
+			}
+			byName[pt[0].Name] = append(byName[pt[0].Name], trig{ax, pt[0]})
+		}
+	}
+	var out []*T
+	seen := map[*T]bool{}
+	dedupe := map[*T]bool{}
+	var match func(pat, g *T, m map[*T]*T) bool
+	match = func(pat, g *T, m map[*T]*T) bool {
+		if pat.Op == term.OBound {
+			if old, ok := m[pat]; ok {
+				return old == g
+			}
+			m[pat] = g
+			return true
+		}
+		if !pat.HasBound() {
+			return pat == g
+		}
+		if pat.Op != g.Op || pat.Name != g.Name || len(pat.Args) != len(g.Args) {
+			return false
+		}
+		for i := range pat.Args {
+			if !match(pat.Args[i], g.Args[i], m) {
+				return false
+			}
+		}
+		return true
+	}
+	var walk func(t *T)
+	walk = func(t *T) {
+		if seen[t] || len(out) > 300 {
+			return
+		}
+		seen[t] = true
+		if t.Op == term.OForall || t.Op == term.OExists {
+			return
+		}
+		if t.Op == term.OApp && !t.HasBound() {
+			for _, tr := range byName[t.Name] {
+				m := map[*T]*T{}
+				if match(tr.pat, t, m) && len(m) == len(tr.ax.Bnd) {
+					inst := term.Subst(tr.ax.Args[0], m)
+					if !dedupe[inst] && inst != term.True {
+						dedupe[inst] = true
+						out = append(out, inst)
+					}
+				}
+			}
+		}
+		for _, a := range t.Args {
+			walk(a)
+		}
+		if t.Op == term.OArrMap {
+			t.M.Each(func(_ int64, v *T) bool { walk(v); return true })
+		}
+	}
+	for _, t := range ts {
+		walk(t)
 	}
 	return out
 }
